@@ -318,6 +318,7 @@ func (r *SparseFloat64Vector) MdotV(a ConstMatrix, b ConstVector) Vector {
     panic("matrix/vector dimensions do not match!")
   }
   if n == 0 || m == 0 {
+    r.Reset()
     return r
   }
   if r.AT(0) == b.ConstAt(0) {
@@ -343,13 +344,14 @@ func (r *SparseFloat64Vector) VdotM(a ConstVector, b ConstMatrix) Vector {
     panic("matrix/vector dimensions do not match!")
   }
   if n == 0 || m == 0 {
+    r.Reset()
     return r
   }
   if r.AT(0) == a.ConstAt(0) {
     panic("result and argument must be different vectors")
   }
   t := NullFloat64()
-  for i := 0; i < n; i++ {
+  for i := 0; i < m; i++ {
     r.AT(i).Reset()
   }
   for it := b.ConstIterator(); it.Ok(); it.Next() {
